@@ -120,6 +120,9 @@ def run_impl(c):
             out["data"] = "ValueError"
         except Exception as e:
             out["data"] = type(e).__name__
+        from harness.c12 import via_store
+
+        out["data_store"] = via_store(g, ValidationConfig(tracklet=True))
         try:
             validate_data(g, ValidationConfig(tracklet=False, lineage=True))
             out["data_off"] = "ok"
@@ -165,6 +168,9 @@ def oracle(c, o):
     if "data" in o:
         if (o["data"] == "ok") != o["valid"] or o["data"] not in ("ok", "ValueError"):
             return Failure(c, o, f"validate_data(tracklet=True) gives {o['data']} but validator says valid={o['valid']}", {"why": "wiring"})
+        if o.get("data_store") is not None and o["data_store"] != o["data"]:
+            return Failure(c, o, f"read_to_memory(store, data_validation=ValidationConfig(tracklet=True)) gives {o['data_store']} but "
+                           f"validate_data gives {o['data']}", {"why": "wiring-read"})
         if o["data_off"] != "ok":
             return Failure(c, o, f"tracklet validation disabled but validate_data raised {o['data_off']}", {"why": "disabled-raises"})
         if (o["data_both"] == "ok") != o["valid"] or o["data_both"] not in ("ok", "ValueError"):
